@@ -64,8 +64,8 @@ def coq_case(case, obs):
         for (f, l), a in zip(case["windows"], obs["answers"]):
             if a[0] != "ok":
                 raise ValueError("helper raised " + a[1])
-            ans.append(f"({cq.nat(f)}, {cq.nat(l)}, {cq.qs(base.finite_or_raise(a[1]))})")
-        return f"(Helper {cq.qs(case['values'])} {cq.qs(case['cfgw'])} {cq.bs(case['failed'])} {cq.lst(ans)})"
+            ans.append(f"({cq.nat(f)}, {cq.nat(l)}, {base.qs(base.finite_or_raise(a[1]))})")
+        return f"(Helper {base.qs(case['values'])} {base.qs(case['cfgw'])} {cq.bs(case['failed'])} {cq.lst(ans)})"
     if k == "filt":
         return base.filt_term(case, obs)
     return base.e2e_term(case, obs)
